@@ -164,3 +164,188 @@ M("C02-clear-on-disconnect", "C02", [(HS, '''        self.data.outbound.arm_repl
         self.packet_reader.reset();
     }''')],
   ["C02/remove/clear-caller/handle_disconnect"])
+
+# ---------------------------------------------------------------------------------------------- C03
+M("C03-swap-remove-release", "C03", [(OUT, '''        self.pending_release.remove(position);''', '''        self.pending_release.swap_remove(position);''')],
+  ["C03/order/pending_release/ack_release/swap_remove"])
+M("C03-pubrel-despite-failed-pubrec", "C03", [(INB, '''                rec.reason.code().as_result()?;
+                if queue_release {
+                    check_pubrel_size(
+                        runtime.maximum_packet_size,
+                        rec.packet_id,
+                        ReasonCode::Success,
+                    )?;
+                    self.outbound
+                        .queue_release(rec.packet_id, ReasonCode::Success)?;
+                    debug!("Queued PUBREL for packet_id={=u16}", rec.packet_id);
+                }''', '''                if queue_release {
+                    check_pubrel_size(
+                        runtime.maximum_packet_size,
+                        rec.packet_id,
+                        ReasonCode::Success,
+                    )?;
+                    self.outbound
+                        .queue_release(rec.packet_id, ReasonCode::Success)?;
+                    debug!("Queued PUBREL for packet_id={=u16}", rec.packet_id);
+                }
+                rec.reason.code().as_result()?;''')],
+  ["C03/rel/after-reason#1"])
+M("C03-requeue-on-stale-pubrec", "C03", [(INB, '''                            "Replaying PUBREL after stale PUBREC for packet id {=u16}",
+                            rec.packet_id
+                        );
+                        false''', '''                            "Replaying PUBREL after stale PUBREC for packet id {=u16}",
+                            rec.packet_id
+                        );
+                        true''')],
+  ["C03/rel/after-removal#1"])
+M("C03-pubrel-wrong-id", "C03", [(DRIVE, '''                    let packet = serialize_pubrel(
+                        &mut small_buf,
+                        step.packet_id,''', '''                    let packet = serialize_pubrel(
+                        &mut small_buf,
+                        step.packet_id.max(1),''')],
+  ["C03/wire/pubrel-id#1"])
+M("C03-pubcomp-removes-by-pubrec-id", "C03", [(INB, '''                if !self.outbound.ack_release(comp.packet_id) {''', '''                if !self.outbound.ack_release(comp.packet_id ^ 0) {''')],
+  ["C03/comp/caller/PubComp"])
+M("C03-release-not-rearmed", ["C03"], [(OUT, '''        for entry in &mut self.pending_release {
+            entry.state = SendState::Write { written: 0 };
+        }''', '''        for entry in &mut self.pending_release {
+            let _ = entry;
+        }''')],
+  ["C03/wire/rearmed"])
+M("C03-suback-queues-pubrel", "C03", [(INB, '''                debug!("Processed SUBACK packet_id={=u16}", ack.packet_id);''', '''                debug!("Processed SUBACK packet_id={=u16}", ack.packet_id);
+                if ack.codes.is_empty() {
+                    self.outbound.queue_release(ack.packet_id, ReasonCode::Success)?;
+                }''')],
+  ["C03/rel/COUNT"])
+
+# ---------------------------------------------------------------------------------------------- C01
+WIRE = "src/wire.rs"
+SER = "src/ser/mod.rs"
+M("C01-publish-no-leading-drain", "C01", [(OPS, '''            return Err(Error::Disconnected.into());
+        }
+        self.flush_outbound().await?;
+
+        let Publication {''', '''            return Err(Error::Disconnected.into());
+        }
+
+        let Publication {''')],
+  ["C01/drain/publish/write_all#1"])
+M("C01-pubrel-flags-zero", "C01", [(WIRE, '''    const MESSAGE_TYPE: MessageType = MessageType::PubRel;
+
+    fn fixed_header_flags(&self) -> u8 {
+        0b0010
+    }''', '''    const MESSAGE_TYPE: MessageType = MessageType::PubRel;
+
+    fn fixed_header_flags(&self) -> u8 {
+        0b0000
+    }''')],
+  ["C01/flags/value/PubRel"])
+M("C01-pubcomp-wrong-type", "C01", [(WIRE, '''    const MESSAGE_TYPE: MessageType = MessageType::PubComp;''', '''    const MESSAGE_TYPE: MessageType = MessageType::PubRec;''')],
+  ["C01/flags/type/PubComp"])
+M("C01-compose-mask", "C01", [(SER, '''let header = ((typ as u8) << 4) | (flags & 0x0F);''', '''let header = ((typ as u8) << 4) | (flags & 0x1F);''')],
+  ["C01/flags/compose"])
+M("C01-subscribe-dup-true", "C01", [(OPS, '''        let (offset, len) = self.session.data.outbound.encode_packet(&Subscribe {
+            packet_id,
+            dup: false,''', '''        let (offset, len) = self.session.data.outbound.encode_packet(&Subscribe {
+            packet_id,
+            dup: topics.len() > 1,''')],
+  ["C01/flags/value/Subscribe"])
+M("C01-replay-skips-control", "C01", [(OUT, '''        for entry in &mut self.pending_control {
+            entry.state = SendState::Write { written: 0 };
+        }
+        for entry in &mut self.retained {''', '''        for entry in &mut self.retained {''')],
+  ["C01/replay/pending_control"])
+M("C01-disconnect-no-latch", ["C01"], [(OPS, '''        // The transport is finished after a DISCONNECT regardless of the write outcome.
+        self.handle_disconnect();
+        result''', '''        // The transport is finished after a DISCONNECT regardless of the write outcome.
+        if result.is_err() {
+            self.handle_disconnect();
+        }
+        result''')],
+  ["C01/last/write_all#1"])
+M("C01-remaining-length-off", "C01", [(SER, '''            .checked_sub(MAX_FIXED_HEADER_SIZE)
+            .ok_or(Error::InsufficientMemory)?;
+
+        let mut buffer = VarintBuffer::new();''', '''            .checked_sub(MAX_FIXED_HEADER_SIZE - 1)
+            .ok_or(Error::InsufficientMemory)?;
+
+        let mut buffer = VarintBuffer::new();''')],
+  ["C01/len/remaining-length"])
+M("C01-flush-counts-as-fresh", "C01", [(OUT, '''        matches!(self, Self::Write { written: 0 })''', '''        matches!(self, Self::Write { written: 0 } | Self::Flush)''')],
+  ["C01/class/fresh"])
+M("C01-fresh-before-in-progress", "C01", [(OUT, '''        for in_progress in [true, false] {''', '''        for in_progress in [false, true] {''')],
+  ["C01/priority/in-progress-first"])
+M("C01-publish-finalized-as-pubrel", "C01", [(SER, '''            .finalize(MessageType::Publish, flags)''', '''            .finalize(MessageType::PubRel, flags)''')],
+  ["C01/flags/finalize-args/encode_publish_with_offset"])
+M("C01-slice-from-zero", "C01", [(SER, '''        Ok((offset, &self.buf[offset..self.index]))''', '''        Ok((offset, &self.buf[..self.index]))''')],
+  ["C01/len/slice"])
+M("C01-in-progress-needs-two-bytes", "C01", [(OUT, '''        matches!(self, Self::Write { written: 1.. } | Self::Flush)''', '''        matches!(self, Self::Write { written: 2.. } | Self::Flush)''')],
+  ["C01/class/in-progress"])
+
+ALLP = ["C01", "C02", "C03", "C11"]
+RF("RF-validate-before-drain", ALLP, [(OPS, '''        self.flush_outbound().await?;
+
+        let Publication {
+            topic,
+            properties,
+            qos,
+            payload,
+            retain,
+        } = publication;
+        if !properties.valid_for(PropertyContext::Publish) {
+            return Err(Error::InvalidRequest.into());
+        }''', '''        let Publication {
+            topic,
+            properties,
+            qos,
+            payload,
+            retain,
+        } = publication;
+        if !properties.valid_for(PropertyContext::Publish) {
+            return Err(Error::InvalidRequest.into());
+        }
+        self.flush_outbound().await?;
+''')])
+RF("RF-inline-require-slot", ALLP, [(OPS, '''        self.flush_outbound().await?;
+        self.require_retained_slot()?;
+
+        let packet_id = self.session.data.next_packet_id();
+        let (offset, len) = self.session.data.outbound.encode_packet(&Subscribe {''', '''        self.flush_outbound().await?;
+        if self.session.data.outbound.retained_full() {
+            return Err(Error::Resource(ResourceError::InflightExhausted));
+        }
+
+        let packet_id = self.session.data.next_packet_id();
+        let (offset, len) = self.session.data.outbound.encode_packet(&Subscribe {''')])
+RF("RF-log-text-and-arg", ALLP, [(INB, '''                debug!("Processed PUBCOMP packet_id={=u16}", comp.packet_id);''', '''                debug!(
+                    "PUBCOMP done packet_id={=u16} quota={=u16}",
+                    comp.packet_id, runtime.send_quota
+                );''')])
+RF("RF-matches-to-match", ALLP, [(OUT, '''        matches!(self, Self::Write { written: 0 })''', '''        match self {
+            Self::Write { written } => written == 0,
+            Self::Flush | Self::Sent => false,
+        }''')])
+RF("RF-rename-locals", ALLP, [(DRIVE, '''        let count = match write_current(&mut self.io, &bytes[written..]).await {
+            Ok(count) => count,''', '''        let count = match write_current(&mut self.io, &bytes[written..]).await {
+            Ok(accepted) => accepted,''')])
+RF("RF-extract-write-helper", ALLP, [(OPS, '''        if let Err(err) = write_all(&mut self.io, packet).await {
+            if matches!(err, Error::WriteZero) {''', '''        let write_result = write_all(&mut self.io, packet).await;
+        if let Err(err) = write_result {
+            if matches!(err, Error::WriteZero) {''')])
+RF("RF-early-return-style", ALLP, [(DRIVE, '''        if let Err(err) = self.io.flush().await {
+            warn!("Outbound packet flush failed: {}", err.kind());
+            self.handle_disconnect();
+            return Err(Error::Transport(err));
+        }
+        self.complete_flush(packet, now);
+        Ok(())''', '''        match self.io.flush().await {
+            Ok(()) => {
+                self.complete_flush(packet, now);
+                Ok(())
+            }
+            Err(err) => {
+                warn!("Outbound packet flush failed: {}", err.kind());
+                self.handle_disconnect();
+                Err(Error::Transport(err))
+            }
+        }''')])
